@@ -80,6 +80,7 @@ type c16src struct {
 	// no -seconds/-timeout flag pprof must wait N + N/2 (+5) seconds for it.
 	slowSecs int
 	comment  string // non-empty: a comment naming the source, to make the merge order visible
+	layout   int    // 0: the binary mapped at 0x1000; 1: at 0x400000, where the scripted local binary does not fit
 	samples  []modelSample
 	addr     string
 	data     []byte
@@ -107,6 +108,9 @@ func c16Build(s *c16src) *profile.Profile {
 		bid = "b1d"
 	}
 	m := &profile.Mapping{ID: 1, Start: 0x1000, Limit: 0x9000, File: "/bin/prog", BuildID: bid, HasFunctions: true}
+	if s.layout == 1 {
+		m.Start, m.Limit = 0x400000, 0x408000
+	}
 	p.Mapping = []*profile.Mapping{m}
 	if s.comment != "" {
 		p.Comments = []string{s.comment}
@@ -118,7 +122,7 @@ func c16Build(s *c16src) *profile.Profile {
 		}
 		f := &profile.Function{ID: uint64(len(p.Function) + 1), Name: c16Funcs[fi], SystemName: c16Funcs[fi], Filename: "/src/" + c16Funcs[fi] + ".go", StartLine: int64(10 * (fi + 1))}
 		p.Function = append(p.Function, f)
-		l := &profile.Location{ID: uint64(len(p.Location) + 1), Mapping: m, Address: uint64(0x1000 + 0x100*fi), Line: []profile.Line{{Function: f, Line: int64(10*(fi+1) + 1)}}}
+		l := &profile.Location{ID: uint64(len(p.Location) + 1), Mapping: m, Address: m.Start + uint64(0x100*fi), Line: []profile.Line{{Function: f, Line: int64(10*(fi+1) + 1)}}}
 		p.Location = append(p.Location, l)
 		locs[fi] = l
 		return l
@@ -368,6 +372,11 @@ func (c16Obj) Open(file string, start, limit, offset uint64, relocationSymbol st
 	simrt.Point("obj-open", 0)
 	if strings.HasPrefix(file, c16Binaries) {
 		if _, ok := simos.GetFile(file); ok {
+			if start != 0x1000 {
+				// like binutils, which cannot compute a base when the mapping
+				// does not correspond to a load segment of the file
+				return nil, fmt.Errorf("%s: mapping at %#x does not match a load segment", file, start)
+			}
 			rest := strings.TrimPrefix(file, c16Binaries)
 			if i := strings.Index(rest, "/"); i > 0 {
 				return c16ObjFile{file, rest[:i]}, nil
@@ -818,6 +827,9 @@ func runC16(x *xctx) *violation {
 		}
 		if multiBuild {
 			s.buildID = []string{"b1d", "b2d", "b3d"}[t.Choose(K, 3)]
+			if t.Bool(K, 40) {
+				s.layout = 1
+			}
 		}
 		if s.kind != skFile {
 			s.latency = int64(t.Choose(simrt.KLatency, 50)) * int64(time.Millisecond)
